@@ -11,7 +11,7 @@ RULE = (
     "all frame histories up to the depth bound over the frame alphabet x all tracker configurations (see C06), restricted to histories "
     "whose frames are internally non-overlapping; links of the returned tracks are compared with the overlap relation / the greedy "
     "closest-pair reference computed with an own (periodic) metric; non-trivial = some pair of consecutive frames are both non-empty"
-    "; grids also with a non-zero lower bound and with mixed periodicity (non-periodic in 1-D); exactly representable (dyadic, 3-4-5) lattices on which contact is decidable; time variants incl. 1e5 + 0.5 k and k*1e-9"
+    "; grids also with a non-zero lower bound and with mixed periodicity (non-periodic in 1-D); exactly representable (dyadic, 3-4-5) lattices on which contact is decidable; time variants incl. 1e5 + 0.5 k and k*1e-9; time courses continued by append() without a time (library-chosen stamps must stay strictly increasing); tracks from stored fields (DropletTrackList.from_storage) on all histories of <= 3 frames over 11 frames must equal those of the analysed time course"
 )
 ASSUMPTIONS = [
     "droplet types from the declared lattices; contacts / distances within 1e-9 of a threshold are treated as ambiguous and skipped",
@@ -20,11 +20,40 @@ ASSUMPTIONS = [
 DEDUPE = False
 
 
+STORE_POS = [6.0, 12.5, 19.0, 26.0]
+STORE_R = 2.5
+
+
 def blocks(tier, seed):
-    return tr.make_blocks(tier, seed)
+    out = tr.make_blocks(tier, seed)
+    ph = [0.0, 0.03, 0.07][seed % 3]
+    # second entry point: tracks obtained directly from stored fields must be those of the time course analysed from the same storage
+    for method in ("overlap", "distance"):
+        for n in ((2, 3) if tier != "thorough" else (2, 3, 4)):
+            for first in range(11):
+                if n == 4 and first % 2:
+                    continue
+                out.append({"storage": True, "method": method, "len": n, "first": first, "phase": ph})
+    return out
+
+
+def storage_frames():
+    import itertools
+
+    out = [()]
+    for k in (1, 2):
+        out.extend(itertools.combinations(range(len(STORE_POS)), k))
+    return out
 
 
 def cases(block):
+    if block.get("storage"):
+        import itertools
+
+        F = storage_frames()
+        for rest in itertools.product(F, repeat=block["len"] - 1):
+            yield {"storage": True, "method": block["method"], "phase": block["phase"], "hist": [list(F[block["first"]])] + [list(f) for f in rest]}
+        return
     for h in tr.histories(block):
         if len(h) >= 2:
             yield {"block": block, "hist": h}
@@ -42,7 +71,40 @@ def greedy(D, max_dist):
     return links
 
 
+def run_storage(case, ctx):
+    import pde
+    from droplets import DropletTrackList, Emulsion, EmulsionTimeCourse, SphericalDroplet
+
+    grid = pde.UnitGrid([32])
+    storage = pde.MemoryStorage()
+    times = [0.5 * i - 1 for i in range(len(case["hist"]))]
+    for t, fr in zip(times, case["hist"]):
+        em = Emulsion([SphericalDroplet(np.array([STORE_POS[i] + case["phase"]]), STORE_R) for i in fr])
+        field = em.get_phasefield(grid) if fr else pde.ScalarField(grid)
+        if t == times[0]:
+            storage.start_writing(field)
+        storage.append(field, t)
+    storage.end_writing()
+    tags = {"method": case["method"], "entry": "from_storage"}
+    canon = lambda tl: sorted((tuple(float(t) for t in trk.times), tuple(d.data.tobytes() for d in trk.droplets)) for trk in tl)
+    try:
+        direct = DropletTrackList.from_storage(storage, method=case["method"])
+        etc = EmulsionTimeCourse.from_storage(storage)
+        ref = DropletTrackList.from_emulsion_time_course(etc, method=case["method"])
+        other = DropletTrackList.from_emulsion_time_course(etc, method="overlap" if case["method"] == "distance" else "distance")
+        ctx.op(3 * len(times))
+    except Exception as e:  # noqa
+        ctx.check("C07.no-raise", False, {"exc": repr(e)[:300]}, tags)
+        return
+    if canon(ref) != canon(other):
+        ctx.count("storage-histories-where-methods-differ")
+    ctx.check("C07.entry-point", canon(direct) == canon(ref), {"direct": [[list(map(float, t.times)), [float(d.position[0]) for d in t.droplets]] for t in direct],
+                                                                 "via_time_course": [[list(map(float, t.times)), [float(d.position[0]) for d in t.droplets]] for t in ref]}, tags)
+
+
 def run_case(case, ctx):
+    if case.get("storage"):
+        return run_storage(case, ctx)
     block, hist = case["block"], case["hist"]
     cfg = block["cfg"]
     tags = {"method": cfg["method"], "grid": cfg["grid"]}
@@ -50,6 +112,13 @@ def run_case(case, ctx):
 
     def d(a, b):
         return tr.dist(cfg, L, dim, T[a][0], T[b][0])
+
+    if block.get("how"):
+        ctx.count("library-chosen-time-stamps")
+        ok = all(b > a for a, b in zip(times, times[1:]))
+        ctx.check("C07.times-increasing", ok, {"times": times, "what": "time course continued with append(emulsion) without a time"}, tags)
+        if not ok:
+            return
 
     for fr in hist:
         for a in range(len(fr)):
@@ -134,4 +203,4 @@ def run_case(case, ctx):
 
 def expected_positive(tier):
     return ["C07.ov-link", "C07.ov-new", "C07.ov-bijective", "C07.di-cutoff", "C07.di-maximal", "C07.di-greedy", "consecutive-nonempty-frames",
-            "bijective-overlap-links", "greedy-links", "competing-candidates", "identity-kept-across-periodic-boundary", "pairs-where-periodic-metric-differs", "exact-contacts-between-frames"]
+            "bijective-overlap-links", "greedy-links", "competing-candidates", "identity-kept-across-periodic-boundary", "pairs-where-periodic-metric-differs", "exact-contacts-between-frames", "library-chosen-time-stamps", "C07.entry-point", "storage-histories-where-methods-differ"]
